@@ -163,7 +163,7 @@ def streams(ctx):
     # (z) the PyPI matcher vs its Lean model, the PEP 440 library's answers (pep440_rs, the real one) supplied as the model's parameter
     PV = ["1.0", "1.0.0", "2.28.1", "2.0.0rc1", "1.0.post1", "1.0.dev0", "1!2.0", "2.0", "3", "0.9", "1.0+local", "junk", "", "1.0.0.0", "v1.0", "1.0a1"]
     PS = ["", ">=1.0", ">=1.0,<2", "==1.0.*", "~=1.4.2", "!=1.5", "<2.0", ">1.0", "<=2", "==2.0", "===1.0", ">=1.0, <2.0", ">= 1.0", "1.0", ",", ">=junk", "=1.0", "~=1", ">=2.0,!=2.0.1,<3",
-          "  >=1.0  ", "==1.0+local", "<1.0a1", ">=1.0;", ">"]
+          "  >=1.0  ", "==1.0+local", "<1.0a1", ">=1.0;", ">", ">=2.0 , <3", ">=2.0 ,<3", "~=2.0 , !=2.5"]      # (a blank BEFORE the comma: the anchor is "2.0", not "2.0 ")
     pc = []
     for _ in range(600 if tier == "quick" else 30000):
         sp = rng.choice(PS) if rng.chance(3, 4) else rng.choice([">=", "<", "==", "~=", "!=", ""]) + rng.choice(PV) + rng.choice(["", ",<" + rng.choice(PV), " "])
